@@ -245,6 +245,7 @@ func runStructCase(c sCaseT) sEventT {
 			panic("id not read back")
 		}
 	})
+	written := map[string]any{} // what each name was given: a write to one field is no write to another
 	for i, f := range c.Shape.Fields {
 		if !isTagged(f) {
 			continue
@@ -255,9 +256,9 @@ func runStructCase(c sCaseT) sEventT {
 			v := reflect.New(shapeGoTypes[f.GoType]).Elem()
 			switch f.GoType {
 			case "string":
-				v.SetString("v")
+				v.SetString(fmt.Sprintf("v%d", i))
 			case "[]string":
-				v.Set(reflect.ValueOf([]string{"b", "a"}))
+				v.Set(reflect.ValueOf([]string{"b", fmt.Sprintf("a%d", i)}))
 			case "*int":
 				n := 5
 				v.Set(reflect.ValueOf(&n))
@@ -284,6 +285,12 @@ func runStructCase(c sCaseT) sEventT {
 			w.Set(jname(f.JSON), v.Interface())
 			if !reflect.DeepEqual(w.Get(jname(f.JSON)), v.Interface()) {
 				panic("value not read back")
+			}
+			written[jname(f.JSON)] = v.Interface()
+			for k, want := range written {
+				if !reflect.DeepEqual(w.Get(k), want) {
+					panic("the write changed what another name reads")
+				}
 			}
 		})
 	}
